@@ -467,3 +467,26 @@ def dcline_dead_terminal(net):
     live = energized_buses(net)
     return any(bool(net.dcline.at[i, "in_service"]) and not (net.dcline.at[i, "from_bus"] in live and net.dcline.at[i, "to_bus"] in live)
                for i in net.dcline.index)
+
+
+def cost_entries_dispatched(case, net, maps):
+    """per cost entry: is its element a variable of the optimisation?  (in service, at an energized bus - own connectivity
+    search -, and controllable where the element type needs the flag; ext_grid, gen and dcline always are)"""
+    live = energized_buses(net)
+    by_type = {}
+    for e in case["recipe"]["el"]:
+        by_type.setdefault(e["t"], []).append(e)
+    out = []
+    for c in case["costs"]:
+        e = by_type[c["et"]][c["k"]]
+        idx = maps[c["et"]][c["k"]]
+        if c["et"] == "dcline":
+            buses = [net.dcline.at[idx, "from_bus"], net.dcline.at[idx, "to_bus"]]
+        else:
+            buses = [net[c["et"]].at[idx, "bus"]]
+        out.append(bool(_dispatchable(e)) and all(b in live for b in buses))
+    return out
+
+
+def is_costs_only_on_undispatched(case, net, maps):
+    return bool(case["costs"]) and not any(cost_entries_dispatched(case, net, maps))
